@@ -1,7 +1,58 @@
+(** C27 property theorems: RedirectAgent / BrowserLikeRedirectAgent (twisted.web.client), repaired
+    by fixes/C27-redirect-base-uri.patch.  [run cfg false] is the repaired agent, [run cfg true] the
+    code at the pinned commit.  Every theorem is for ALL configurations (status lists, limit,
+    sensitive names), methods, URIs, header sets and response chains of ANY length.
+    [tw_urljoin], [same_origin] are the transcriptions of urllib's urljoin/urldefrag and of
+    URI.fromBytes in Lib/Uri.v. *)
 From Coq Require Import List NArith Bool.
 From TwLib Require Import HttpClientBytes Uri.
-From C27 Require Import Model Proofs.
+From C27 Require Import Model Spec Proofs.
 Import ListNotations.
-Theorem stub_t : forall cfg m u hs, snd (run cfg false m u hs []) = Waiting.
-Proof. exact stub. Qed.
-Print Assumptions stub_t.
+Local Open Scope N_scope.
+
+(** the first request is the caller's; every later request goes to the Location of the response
+    just received, resolved against the URI of the request that response answered *)
+Theorem target_resolved_against_redirecting_request : forall cfg method uri hs resps,
+  let reqs := fst (run cfg false method uri hs resps) in
+  hd_error reqs = Some (mkRequest method uri hs) /\ chain_ok uri resps (tl reqs).
+Proof. exact run_chain. Qed.
+Print Assumptions target_resolved_against_redirecting_request.
+
+(** FULL statement above is FALSE of the unrepaired code (finding F9):
+    http://a.example/p/q -> 302 http://b.example/x/y/ -> 302 "z" : third request to http://a.example/p/z *)
+Theorem target_resolved_against_redirecting_request_legacy_refuted :
+  exists cfg method uri hs resps,
+    ~ chain_ok uri resps (tl (fst (run cfg true method uri hs resps))).
+Proof. exact (ex_intro _ f9_cfg (ex_intro _ GET (ex_intro _ f9_uri (ex_intro _ None (ex_intro _ f9_resps legacy_refuted))))). Qed.
+Print Assumptions target_resolved_against_redirecting_request_legacy_refuted.
+
+(** never more than redirectLimit redirects are followed; InfiniteRedirection is reported exactly
+    when the limit has been used up  (both for the repaired and the unrepaired code) *)
+Theorem at_most_limit_followed : forall cfg legacy method uri hs resps,
+  let r := run cfg legacy method uri hs resps in
+  N.of_nat (length (tl (fst r))) <= limit cfg
+  /\ (forall c, snd r = ErrInfinite c -> N.of_nat (length (tl (fst r))) = limit cfg).
+Proof. exact run_limit. Qed.
+Print Assumptions at_most_limit_followed.
+
+(** each followed redirect keeps the method (which is then GET or HEAD) for the status codes of
+    _redirectResponses (301/302/307/308 for RedirectAgent; 307 for BrowserLikeRedirectAgent) and uses
+    GET for those of _seeOtherResponses (303; 301/302/303/308 for the browser-like agent) *)
+Theorem method_preserved_307_308_else_GET_per_docs : forall cfg legacy method uri hs resps,
+  methods_ok cfg method resps (tl (fst (run cfg legacy method uri hs resps))).
+Proof. exact run_methods. Qed.
+Print Assumptions method_preserved_307_308_else_GET_per_docs.
+
+(** a request that carries a header whose name is sensitive goes to the origin (scheme, host, port)
+    of the original request; non-sensitive headers are never dropped; the header set is the
+    caller's or the caller's minus the sensitive names, nothing else *)
+Theorem sensitive_headers_only_to_original_origin : forall cfg legacy method uri hs resps,
+  Forall (fun q => (carries_sensitive cfg q -> same_origin uri (q_uri q) = true)
+                   /\ match q_headers q, hs with
+                      | Some h, Some h0 => strip cfg h = strip cfg h0 /\ (h = h0 \/ h = strip cfg h0)
+                      | None, None => True
+                      | _, _ => False
+                      end)
+         (tl (fst (run cfg legacy method uri hs resps))).
+Proof. exact run_sensitive. Qed.
+Print Assumptions sensitive_headers_only_to_original_origin.
